@@ -86,6 +86,7 @@ type Conn struct {
 	// transient faults (the connection stays usable afterwards):
 	TempReadAt    int // the k-th Read call returns (0, ErrTemporary) once
 	TempReadFrom  int // every Read call from the k-th on returns (0, ErrTemporary): a deadline that has passed for good
+	eofWithData   bool
 	TempWriteAt   int // the k-th Write call takes half of its bytes and returns (n, ErrTemporary) once
 	TempWriteMore int // ... and so do the next TempWriteMore Write calls (a peer that stays slow)
 	tempFired     int
@@ -252,7 +253,32 @@ again:
 	if !c.NoLog {
 		c.log(Event{Kind: "R", N: n})
 	}
+	if c.eofWithData && c.inEOF && len(c.in) == 0 {
+		// the end of the stream is reported together with its last bytes (as io.Reader allows, and as
+		// crypto/tls does for application data directly followed by close_notify)
+		c.ended = true
+		return n, io.EOF
+	}
 	return n, nil
+}
+
+// SendCutEOF is SendCut followed by CloseWrite in one step: the Read that takes the last queued byte
+// reports io.EOF together with it.
+func (c *Conn) SendCutEOF(b []byte, cuts []int) {
+	c.mu.Lock()
+	prev := 0
+	for _, k := range append(append([]int(nil), cuts...), len(b)) {
+		if k <= prev || k > len(b) {
+			continue
+		}
+		cp := append([]byte(nil), b[prev:k]...)
+		c.in = append(c.in, cp)
+		c.sent = append(c.sent, cp...)
+		prev = k
+	}
+	c.inEOF, c.eofWithData = true, true
+	c.cond.Broadcast()
+	c.mu.Unlock()
 }
 
 func (c *Conn) Write(p []byte) (int, error) {
@@ -577,6 +603,8 @@ func (c *Conn) Stats() Stats {
 
 // ClientConn is the client's net.Conn over the same duplex.
 type ClientConn struct {
+	Hold     bool // Write keeps the bytes back until FlushHeld
+	held     []byte
 	C        *Conn
 	Pos      int  // offset in the server output already consumed
 	NonBlock bool // return a temporary timeout error instead of blocking when no data is available
@@ -615,10 +643,26 @@ func (cc *ClientConn) Write(p []byte) (int, error) {
 	if closed {
 		return 0, net.ErrClosed
 	}
+	if cc.Hold {
+		cc.held = append(cc.held, p...)
+		return len(p), nil
+	}
 	cc.C.Send(p)
 	return len(p), nil
 }
-func (cc *ClientConn) Close() error                       { cc.C.CloseWrite(); return nil }
+func (cc *ClientConn) Close() error { cc.C.CloseWrite(); return nil }
+
+// FlushHeld sends what Write has held back (Hold) as one segment; with eof the end of the stream comes
+// with it.
+func (cc *ClientConn) FlushHeld(eof bool) {
+	b := cc.held
+	cc.held = nil
+	if eof {
+		cc.C.SendCutEOF(b, nil)
+	} else {
+		cc.C.Send(b)
+	}
+}
 func (cc *ClientConn) LocalAddr() net.Addr                { return cc.C.addr }
 func (cc *ClientConn) RemoteAddr() net.Addr               { return cc.C.addr }
 func (cc *ClientConn) SetDeadline(t time.Time) error      { return nil }
